@@ -102,6 +102,22 @@ void h_ternary(void) {
     __CPROVER_assert(rt == wt, "conditional operator: the result type is the common type of the usual arithmetic conversions");
     __CPROVER_assert((rs == Sign_UNSIGNED) == wu && rs != Sign_UNKNOWN_SIGN, "conditional operator: the result signedness follows the usual arithmetic conversions");
 }
+int g_in_cpp, g_in_cmp;
+/* a < b, a == b, a && b, a || b with scalar operands: int in C (C11 6.5.8p6, 6.5.9p3, 6.5.13p3), bool in C++ */
+void h_compare(void) {
+    _Bool is_cpp = nondet_bool(), is_cmp = nondet_bool();
+#ifdef CLASS_C
+    __CPROVER_assume(!is_cpp);
+#else
+    __CPROVER_assume(is_cpp);
+#endif
+    g_in_cpp = is_cpp; g_in_cmp = is_cmp;
+    enum VType rt = VType_UNKNOWN_TYPE; enum Sign rs = Sign_UNKNOWN_SIGN; _Bool ff = 0;
+    compare_block(is_cpp, is_cmp, 0, nondet_bool(), &rt, &rs, &ff);
+    __CPROVER_assert(!ff, "operands that are not objects of a class: no overloaded operator is looked up");
+    if (is_cpp) __CPROVER_assert(rt == VType_BOOL, "C++: comparison and logical operators have type bool");
+    else __CPROVER_assert(rt == VType_INT && rs == Sign_SIGNED, "C: comparison and logical operators have type int");
+}
 int g_in_szt;
 /* p - q: the result has type ptrdiff_t, the signed integer type as wide as size_t (and as a pointer) on the built-in platforms */
 void h_ptrdiff(void) {
@@ -218,6 +234,29 @@ def build(ctx):
     ptr_fn = ("/* the first operand is a pointer - 1: the result has its type, 2: pointer difference of type (*rt, *rs) */\n"
               "int pointer_block(_Bool ternary, const struct Platform *platform, enum VType *rt, enum Sign *rs)\n{\n    int sel = 0;\n%s\n    return 0;\n}\n"
               % extract.strip_comments(tp))
+    # comparison and logical operators (setValueTypeInTokenList)
+    ftl = extract.locate_function("lib/symboldatabase.cpp", r'^void SymbolDatabase::setValueTypeInTokenList\s*\(')
+    mtl = extract.mask(ftl.text)
+    hc = list(re.finditer(r'\}\s*else if \(tok->isComparisonOp\(\) \|\| tok->tokType\(\) == Token::eLogicalOp\)\s*\{', mtl))
+    if len(hc) != 1:
+        raise extract.ExtractError("setValueTypeInTokenList: branch of the comparison / logical operators found %d times" % len(hc))
+    obc = hc[0].end() - 1
+    cbc = extract.match_brace(ftl.text, obc, mtl)
+    regc = extract.Located("lib/symboldatabase.cpp", ftl.text[obc + 1:cbc], ftl.start + obc + 1, ftl.start + cbc, extract.read("lib/symboldatabase.cpp"))
+    kb.add_located("SymbolDatabase::setValueTypeInTokenList [comparison / logical operator]", regc, "region")
+    tcmp, k = located_rules(regc, _common.VT_RULES + [
+        (r'const Function\s*\*\s*function = getOperatorFunction\(tok\)\s*;\s*if \(function\)\s*\{\s*ValueType vt\s*;\s*parsedecl\(function->retDef,\s*&vt,\s*mDefaultSignedness,\s*mSettings\)\s*;\s*setValueType\(tok,\s*vt\)\s*;\s*continue\s*;\s*\}',
+         'if (has_function) { *from_function = 1; return; }', 1, 1),
+        (r'\(getClassScope\(tok->astOperand1\(\)\) \|\| getClassScope\(tok->astOperand2\(\)\)\)', 'class_operand', 1, 1),
+        (r'\btok->isCpp\(\)', 'is_cpp', 1),
+        (r'\btok->isC\(\)', '!is_cpp', 0),
+        (r'\btok->isComparisonOp\(\)', 'is_comparison', 1),
+        (r'\bsetValueType\(tok,\s*ValueType\(([^,()]+(?:\([^()]*\))?[^,()]*),\s*([^,()]+(?:\([^()]*\))?[^,()]*),\s*0U\)\)\s*;', r'{ *rs = \1; *rt = \2; }', 1, 2),
+    ], ID + ".compare"); n += k
+    if re.search(r'\btok\b|mSettings|Function', extract.mask(tcmp)):
+        raise extract.ExtractError("K23: the comparison branch was not fully lowered: %r" % re.findall(r'[^\n]*(?:\btok\b|mSettings|Function)[^\n]*', extract.mask(tcmp))[:3])
+    cmp_fn = ("void compare_block(_Bool is_cpp, _Bool is_comparison, _Bool class_operand, _Bool has_function, enum VType *rt, enum Sign *rs, _Bool *from_function)\n{\n%s\n}\n"
+              % extract.strip_comments(tcmp))
     ternary_fn = ("/* 0: the conversions below decide, 1 / 2: the result has the type of operand 1 / 2 */\n"
                   "int ternary_select(enum VType vt1_type, enum Sign vt1_sign, int vt1_pointer, _Bool has_vt2, enum VType vt2_type, enum Sign vt2_sign, int vt2_pointer, _Bool other_equal)\n{\n    int sel = 0;\n%s\n    return 0;\n}\n"
                   % extract.strip_comments(tt))
@@ -228,6 +267,7 @@ def build(ctx):
     out.append("_Bool g_is_incdec;   /* the operator is ++ or -- (parent->tokType() == Token::eIncDecOp) */\n_Bool g_is_c;        /* the file is C (parent->isC()) */\n")
     out.append(ternary_fn)
     out.append(ptr_fn)
+    out.append(cmp_fn)
     out.append("void conv_block(enum VType vt1_type, enum Sign vt1_sign, _Bool has_vt2, enum VType vt2_type, enum Sign vt2_sign, _Bool ternary, const struct Platform *platform, enum VType *rt, enum Sign *rs)\n{\n%s\n    *rt = vt.type; *rs = vt.sign;\n}\n"
                % extract.strip_comments(t))
     kb.rules_fired = n
@@ -238,6 +278,9 @@ def build(ctx):
     kb.job("unary", "h_unary", note="loop-free: complete")
     kb.job("incdec", "h_incdec", note="loop-free: complete; the parent operator is ++ / --")
     kb.job("ternary", "h_ternary", note="loop-free regions (operand selection + conversions): complete in both operand types and signs, C and C++, long 4 or 8")
+    kb.job("compare", "h_compare", note="loop-free region; C++ files")
+    kb.job("compare.c", "h_compare", kind="known", finding="K23.comparison-bool-in-c", props=["C09"], defines=["CLASS_C"], expect_fail=["h_compare.assertion"],
+           note="recorded finding class: C files")
     kb.job("ptrdiff", "h_ptrdiff", note="loop-free region: int 2/4, long 4/8, size_t as wide as one of int / long / long long")
     kb.job("getIntegerTypeSize", "h_size", note="loop-free: complete")
     kb.job("cover", "h_cover", kind="cover")
